@@ -110,5 +110,21 @@ k("K80", "C08", "compression/lz4/lz4.go", "i < compressedLength*maxCompressionRa
 k("K81", "C08", "compression/lz4/lz4.go", "i < compressedLength*maxCompressionRatio*2; i *= 2 {", "i <= compressedLength*maxCompressionRatio; i *= 2 {",
   "lz4-sizing:compression/lz4.decompress", "bound tidied to <= 255x stops at 128x (seeded C06-B)")
 
+# ---- C03
+k("K22", "C03", "message/prepare.go", "\t\tsize += primitive.LengthOfInt // flags\n", "",
+  "length-vs-encode:prepareCodec@v5", "flags word missing from the length")
+k("K23", "C03", "message/query_options.go", "\tif flags.Contains(primitive.QueryFlagDefaultTimestamp) {\n\t\tlength += primitive.LengthOfLong\n", "\tif flags.Contains(primitive.QueryFlagDefaultTimestamp) {\n\t\tlength += primitive.LengthOfShort\n",
+  "length-vs-encode:queryCodec@v", "default timestamp sized as a short")
+k("K24", "C03", "frame/encode.go", "\tif header.Flags.Contains(primitive.HeaderFlagTracing) && body.Message.IsResponse() {\n\t\tlength += primitive.LengthOfUuid", "\tif header.Flags.Contains(primitive.HeaderFlagTracing) {\n\t\tlength += primitive.LengthOfUuid",
+  "length-vs-encode:frame.body@", "tracing id counted for requests")
+k("K25", "C03", "frame/convert.go", "BodyLength = int32(", "BodyLength = 1 + int32(",
+  "bodylength-flow:", "BodyLength not the length of the emitted bytes")
+k("K82", "C03", "message/error.go", "\t\tif version.SupportsWriteTimeoutContentions() && writeTimeout.WriteType == primitive.WriteTypeCas {\n\t\t\tlength += primitive.LengthOfShort // contentions", "\t\tif version >= primitive.ProtocolVersion5 && writeTimeout.WriteType == primitive.WriteTypeCas {\n\t\t\tlength += primitive.LengthOfShort // contentions",
+  "length-vs-encode:errorCodec@D", "wrong version predicate in the length calculator only (seeded C03-B)")
+k("K83", "C03", "primitive/string_list.go", "\tlength := LengthOfShort\n\tfor _, s := range list {\n\t\tlength += LengthOfString(s)", "\tlength := LengthOfShort\n\tfor _, s := range list {\n\t\tlength += len(s)",
+  "primitive-length:primitive.WriteStringList", "per-element prefix forgotten in a primitive length")
+k("K84", "C03", "message/result_metadata.go", "\t\tlength += primitive.LengthOfShort * len(metadata.PkIndices)", "\t\tlength += primitive.LengthOfInt * len(metadata.PkIndices)",
+  "length-vs-encode:", "pk indices sized 4 bytes each")
+
 json.dump(C, open(os.path.join(os.path.dirname(os.path.abspath(__file__)), "controls.json"), "w"), indent=1)
 print(len(C), "controls")
